@@ -626,7 +626,7 @@ def gen_ei(rng, tier, mods=None, depths=(1, 1, 2, 3, 3, 4, 5, 6, 8, 12), probe=F
         body = "class L(Exception):\n        pass\n    raise L(%s)" % (args or "")
         expect = "L"
     elif how == "fakemod":
-        fm = rng.choice(["builtins", "__main__", "exceptions", "__builtin__", "some.pkg", "x"])
+        fm = rng.choice(["builtins", "__main__", "exceptions", "__builtin__", "some.pkg", "x", None, 5, ""])
         pre = "class Fake%d(Exception):\n    __module__ = %r\n" % (depth, fm)
         body = "raise Fake%d(%s)" % (depth, args or "")
         expect = "Fake%d" % depth
@@ -982,7 +982,7 @@ def _capture(exc, tb, step, d, mods):
     except Exception:
         exc_str = None
     obs["live"] = live
-    obs["exc"] = {"module": et.__module__, "qualname": et.__qualname__, "name": et.__name__, "str": exc_str,
+    obs["exc"] = {"module": et.__module__ if isinstance(et.__module__, str) else None, "qualname": et.__qualname__, "name": et.__name__, "str": exc_str,
                   "shown": shown[:-1]}
     obs["interp"] = nomark[:-1]
     assert full.endswith("\n")
@@ -1174,7 +1174,7 @@ def to_coq(case, obs):
     elif kind == "full":
         live = clist("mkLive %s %s %s %s" % (I.s(l["file"]), cN(l["lineno"]), I.s(l["name"]), I.s(l["raw"])) for l in obs["live"])
         e = obs["exc"]
-        exc = "(mkExc %s %s %s %s %s)" % (I.s(e["module"]), I.s(e["qualname"]), I.s(e["name"]),
+        exc = "(mkExc %s %s %s %s %s)" % ("None" if e["module"] is None else "(Some %s)" % I.s(e["module"]), I.s(e["qualname"]), I.s(e["name"]),
                                           "None" if e["str"] is None else "(Some %s)" % I.t(e["str"]), I.t(e["shown"]))
         term = "CaseFull %s %s %s %s" % (live, exc, I.t(obs["fulltext"]), _res_tb(I, obs["parsed_full"]))
     elif kind == "stack":
@@ -1194,7 +1194,7 @@ def _ei_args(I, obs, tuple_=False):
     if True:
         live = clist("mkLive %s %s %s %s" % (I.s(l["file"]), cN(l["lineno"]), I.s(l["name"]), I.s(l["raw"])) for l in obs["live"])
         e = obs["exc"]
-        exc = "(mkExc %s %s %s %s %s)" % (I.s(e["module"]), I.s(e["qualname"]), I.s(e["name"]),
+        exc = "(mkExc %s %s %s %s %s)" % ("None" if e["module"] is None else "(Some %s)" % I.s(e["module"]), I.s(e["qualname"]), I.s(e["name"]),
                                           "None" if e["str"] is None else "(Some %s)" % I.t(e["str"]), I.t(e["shown"]))
         frames = clist("mkCpObs %s %s %s %s" % (I.s(f["path"]), cN(f["lineno"]), I.s(f["func"]), I.s(f["line"])) for f in obs["frames"])
         if "tbi" in obs:
